@@ -187,7 +187,10 @@ fn check(site: &str, s: &str, case: &str, rep: &mut Report) {
     };
     // (2) non-interference with the benign twin at the same site
     let ts = twin(s);
-    if ts != *s {
+    // in format sites '%' and '\\' are elements of the mini-language, not literal text: an emitter may
+    // legitimately give them a different shape
+    let twin_applies = !((site.contains("literal") || site.contains("octal")) && (s.contains('%') || s.contains('\\')));
+    if ts != *s && twin_applies {
         let twin_text = input_for(site, &ts);
         let twin_prog = twin_text.and_then(|tt| match parse_g(&tt) {
             Ok(Ok((o, e))) => {
@@ -251,6 +254,72 @@ fn check(site: &str, s: &str, case: &str, rep: &mut Report) {
     }
 }
 
+/// Constructor route: strings the text route cannot carry (both quote kinds, an empty string, a
+/// hostile xattr name inside a format) reach the emitter directly.
+fn check_ctor(kind: u64, s: &str, case: &str, rep: &mut Report) {
+    rep.evaluations += 1;
+    let fmt_x = vec![FormatElement::Literal("v=".into()), FormatElement::Field(FormatField::XAttr(s.to_string()))];
+    let (site, e) = match kind % 8 {
+        0 => ("ctor-name", t(Test::Name(s.to_string()))),
+        1 => ("ctor-ipath", t(Test::InsensitivePath(s.to_string()))),
+        2 => ("ctor-pool", t(Test::Pool(s.to_string()))),
+        3 => ("ctor-xattr-match", t(Test::XattrMatch(s.to_string(), format!("v{}", s)))),
+        4 => ("ctor-format-xattr", act(Action::PrintFormatted(fmt_x))),
+        5 => ("ctor-format-xattr+framed", act(Action::FilePrintFormatted("o".into(), fmt_x))),
+        6 => ("ctor-fprint", act(Action::FilePrint(s.to_string()))),
+        _ => ("ctor-literal", act(Action::PrintFormatted(vec![FormatElement::Literal(s.to_string())]))),
+    };
+    if s.is_empty() && kind % 8 == 7 {
+        return;
+    }
+    if kind % 8 == 3 && s.contains('\\') && (s.contains('\'') || s.contains('*') || s.contains('?') || s.contains('[')) {
+        return; // glob matching of patterns containing backslashes: unspecified (spec/UNSPECIFIED.md)
+    }
+    let class = char_class(s);
+    let detail = || J::obj(vec![("site", J::s(site)), ("string", J::s(s)), ("tree", J::s(format!("{:?}", e)))]);
+    let compiled = match compile_g(&e, &opts_default(), "/dev/mdt0") {
+        Ok((Ok(c), _, _)) => c,
+        Ok((Err(_), _, _)) => return,
+        Err(p) => {
+            rep.violation(&format!("C04:{}", p.sig()), &format!("compile panicked for {} string {:?}", site, s), case, detail());
+            return;
+        }
+    };
+    if s.chars().any(|c| matches!(c, '"' | '\\' | '~')) {
+        rep.nontrivial(&format!("{}|{}", site, s));
+    }
+    let forms = match read_program(&compiled.text) {
+        Ok(f) => f,
+        Err(err) => {
+            rep.violation(&format!("C04:unreadable:{}:{}", site, class), &format!("{} string {:?}: emitted program does not read back: {}", site, s, err), case, detail());
+            return;
+        }
+    };
+    if kind % 8 != 7 {
+        let whole = Sx::List(forms);
+        let mut leaves = vec![];
+        whole.strings(&mut leaves);
+        let in_table = compiled.io_map.as_ref().map_or(false, |m| m.values().any(|tg| matches!(tg, Target::File(f, _) if f == s)));
+        if !(leaves.iter().any(|l| *l == s) || in_table) {
+            rep.violation(&format!("C04:not-carried-verbatim:{}:{}", site, class), &format!("{} string {:?}: no literal decodes to it", site, s), case, detail());
+            return;
+        }
+    }
+    let mut r = Rng::new(11);
+    let mut recs_extra = |now: i128| {
+        let mut v = directed_records(&e, now, &mut r, 2);
+        if let Some(first) = v.first_mut() {
+            first.xattrs = vec![(s.to_string(), "val".to_string())];
+        }
+        v
+    };
+    match validate(&e, &opts_default(), &mut recs_extra) {
+        Tv::Bad { kind: k, what, .. } => rep.violation(&format!("C04:exec-{}:{}:{}", k, site, class), &format!("{} string {:?}: {}", site, s, what), case, detail()),
+        Tv::Agree { .. } => rep.count("executed_ctor"),
+        _ => {}
+    }
+}
+
 fn nth_string(mut idx: u64, len: u32) -> String {
     let mut cs = vec![];
     for _ in 0..len {
@@ -298,6 +367,19 @@ pub fn run(ctx: &Ctx, rep: &mut Report) {
     par_cases(ctx, "norm", (norm.len() * SITES.len()) as u64, rep, |i, rep| {
         let site = SITES[(i as usize) % SITES.len()];
         check(site, norm[(i as usize) / SITES.len()], &format!("norm:{}", i), rep);
+    });
+    // constructor route: strings no quoting style can carry, and the xattr name inside a format
+    let n_ctor = ctx.pick(4000, 400_000);
+    par_cases(ctx, "ctor", n_ctor, rep, |i, rep| {
+        let mut r = Rng::for_case(ctx.seed, "ctor", i);
+        let fixed = ["", "'", "\"", "'\"", "a'b\"c", "\\", "~", "\"\\~", "x\"); (display 1", "\n", " "];
+        let s: String = if (i / 8) < fixed.len() as u64 {
+            fixed[(i / 8) as usize].to_string()
+        } else {
+            let len = 1 + r.usize(6);
+            (0..len).map(|_| if r.chance(1, 4) { '\'' } else { ALPHA[r.usize(18)] }).collect()
+        };
+        check_ctor(i, &s, &format!("ctor:{}", i), rep);
     });
     // the k of %Ak / %Ck / %Tk
     par_cases(ctx, "strftime", 18 * 3, rep, |i, rep| {
